@@ -56,7 +56,9 @@ func verifC16Project(c verifC16Cfg) *types.Project {
 	case "readiness.http.port":
 		p.ReadinessProbe = &health.Probe{HttpGet: &health.HttpProbe{Host: "h", Port: "80{{.PC_REPLICA_NUM}}"}}
 	}
-	q := types.ProcessConfig{Command: "other"}
+	// a second process that defines no local variable: it must see the global value and its
+	// own replica number, whatever the first process defines
+	q := types.ProcessConfig{Command: "other-{{.V}}-{{.PC_REPLICA_NUM}}", WorkingDir: "/w/{{.V}}"}
 	return &types.Project{Vars: types.Vars{"V": "global"}, Processes: types.Processes{"p": p, "q": q}}
 }
 
@@ -154,6 +156,10 @@ func VerifC16_Pipeline() {
 		}
 	}
 	qa := a.Processes["q"]
-	verifAssert("bystander", qa.Name == "q" && qa.Replicas == 1 && qa.Command == "other" && qa.Namespace == types.DefaultNamespace)
+	verifAssert("bystander", qa.Name == "q" && qa.Replicas == 1 && qa.Namespace == types.DefaultNamespace)
+	verifAssert("bystander.rendered.with.its.own.variables", qa.Command == "other-global-0" && qa.WorkingDir == "/w/global")
+	if v, ok := a.Vars["V"]; !ok || v != "global" {
+		verifFail("global.vars.changed.by.loading")
+	}
 	verifReach("end")
 }
